@@ -74,8 +74,8 @@ type access struct {
 	in    ssa.Instruction
 	write bool
 	spec  *guardSpec
-	base  string    // canonical key of the struct value holding the field
-	fresh bool      // the struct value is a fresh allocation of this function
+	base  string // canonical key of the struct value holding the field
+	fresh bool   // the struct value is a fresh allocation of this function
 	what  string
 }
 
@@ -190,18 +190,7 @@ func ruleR2() *Rule {
 		ID:    "R2",
 		Title: "LOCKSET: guarded fields are only accessed with their mutex held; atomic-only fields only atomically",
 		Props: []string{"C11", "C16", "C20"},
-		Floor: func(cfg Config, prop string) int {
-			switch prop {
-			case "C20":
-				return 3
-			case "C16":
-				if cfg.Vectors {
-					return 15
-				}
-				return 0
-			}
-			return 10
-		},
+		Floor: floorFor("R2"),
 		Run: func(c *RuleCtx) {
 			var specs []*guardSpec
 			for i := range guardTable {
